@@ -23,7 +23,7 @@ BOUNDS = {'quick': dict(requests=2, budget_s=150, audit_max=8), 'thorough': dict
 OUTSIDE = ['TLS internals', 'timeouts / reconnects / a server closing the connection', 'more than `requests` queued requests', 'server-sent-event responses']
 STUBS = ['FakeNet with a scripted HTTP peer; FakeCtx for the https client; name resolution stubbed']
 ASSUMPTIONS = ['the peer answers HEAD with the Content-Length of the corresponding GET and no body']
-_T = ['delayed-response', 'redirect-same-authority', 'redirect-relative', 'redirect-other-authority', 'https-to-http', 'head-request', 'json-then-raw']
+_T = ['delayed-response', 'redirect-same-authority', 'redirect-relative', 'redirect-other-authority', 'https-to-http', 'https-to-http-same-host-and-port', 'head-request', 'json-then-raw']
 REQUIRED_TAGS = {'quick': _T, 'thorough': _T + ['three-in-queue']}
 RULE = 'tags: delayed responses, the redirect kinds, HEAD framing, payload kinds changing between queued requests'
 METHODS = ['GET', 'POST', 'PUT', 'HEAD']
@@ -39,6 +39,8 @@ def partitions(tier):
             for b0 in BEHAVE:
                 ps.append(dict(name='n%d-%s-%s' % (n, m0, b0), n=n, m0=m0, b0=b0, secure=False))
     ps.append(dict(name='https-to-http', n=1, m0='GET', b0='redir-insecure', secure=True))
+    for v in ('same', 'noport', 'host'):      # the refusal must not depend on where the http target lives
+        ps.append(dict(name='https-to-http-%s' % v, n=1, m0='GET', b0='redir-insecure-' + v, secure=True))
     return ps
 
 
@@ -88,7 +90,10 @@ class Peer:
                 self.sock.inq.append(head + (b'' if method == b'HEAD' else body))
             else:
                 loc = {'redir-abs': b'http://127.0.0.1:8080/moved' + target, 'redir-rel': b'/moved' + target,
-                       'redir-other': b'http://127.0.0.2:8081/moved' + target, 'redir-insecure': b'http://127.0.0.1:8080/moved' + target}[act]
+                       'redir-other': b'http://127.0.0.2:8081/moved' + target, 'redir-insecure': b'http://127.0.0.1:8080/moved' + target,
+                       'redir-insecure-same': b'http://127.0.0.1:8443/moved' + target,       # only the scheme is downgraded: same host, same port
+                       'redir-insecure-noport': b'http://127.0.0.1/moved' + target,
+                       'redir-insecure-host': b'http://127.0.0.2:8443/moved' + target}[act]
                 self.sock.inq.append(b'HTTP/1.1 302 Found\r\nLocation: ' + loc + b'\r\nContent-Length: 0\r\n\r\n')
 
 
@@ -209,7 +214,8 @@ def harness(sym, part):
         if sp['delay']:
             sym.cover('delayed-response')
         sym.cover({'ok': 'plain', 'redir-abs': 'redirect-same-authority', 'redir-rel': 'redirect-relative', 'redir-other': 'redirect-other-authority',
-                   'redir-insecure': 'https-to-http'}[sp['behave']])
+                   'redir-insecure': 'https-to-http', 'redir-insecure-same': 'https-to-http-same-host-and-port',
+                   'redir-insecure-noport': 'https-to-http', 'redir-insecure-host': 'https-to-http'}[sp['behave']])
         if sp['method'] == 'HEAD':
             sym.cover('head-request')
         if i and specs[i - 1]['payload'] == 'data' and sp['payload'] == 'body':
